@@ -97,10 +97,17 @@ MutTexts(ms) == [i \in 1..Len(ms) |-> ms[i].text]
 SamVarFailed(v, c, k, o) ==
   LET ro == o.runs[k]
       others == {x \in 1..Len(v.runs) : v.runs[x].cmd = "topavar"}
-  IN IF ~c.d2 THEN {} ELSE
+      tomas == {x \in 1..Len(v.runs) : v.runs[x].cmd = "tomavar"}
+      NoIns(g) == \A i \in 1..Len(c.B[g]) : \A j \in 1..Len(c.B[g][i].cig) : c.B[g][i].cig[j][1] # "I"
+  IN (IF c.d1 /\ ro.err = "" /\                  \* two real outputs: records that overlap and disagree are in this relation's domain
+         ~(\A x \in tomas : o.runs[x].err = "" =>       \* the toMultiAlign row (--pad) in an alignment with the reference: queries without insertions
+              \A g \in 1..Len(c.B) : NoIns(g) => MutTexts(RowOfQ(ro, c.B[g][1].q)) = MutTexts(RowOfQ(o.runs[x], c.B[g][1].q)))
+      THEN {"C11-sam-vs-msa-block"} ELSE {}) \cup
+     IF ~c.d2 THEN {} ELSE
      IF ro.err # "" THEN {"C11-sam-variants-error"} ELSE
        (IF \A x \in others : o.runs[x].err = "" => \A g \in 1..Len(c.B) : MutTexts(RowOfQ(ro, c.B[g][1].q)) = MutTexts(RowOfQ(o.runs[x], c.B[g][1].q))
         THEN {} ELSE {"C11-sam-vs-pair-block"})
+
        \cup (IF \A g \in 1..Len(c.B) :
                   LET ms == RowOfQ(ro, c.B[g][1].q)
                       io == SelectSeq(ms, LAMBDA m : m.t \in {"ins", "del"})
@@ -112,7 +119,7 @@ SamVarFailed(v, c, k, o) ==
               THEN {} ELSE {"C05-sam-block-mutations"})
 FailedRun(v, c, k, o) ==
   LET r == v.runs[k]  ro == o.runs[k] IN
-  IF r.cmd = "topavar" THEN {} ELSE
+  IF r.cmd \in {"topavar", "tomavar"} THEN {} ELSE
   IF r.cmd = "samvar" THEN SamVarFailed(v, c, k, o) ELSE
   IF r.cmd = "toma" THEN
        (IF c.d1 /\ ~TomaOK(v, c, r, ro) THEN {"C01-row"} ELSE {})
